@@ -71,7 +71,7 @@ class Effects:
         if ev is not None:
             return ev
         ev = {"assign": [], "decl": [], "calls": [], "delete": [], "ret": [], "incdec": [], "greads": [], "lambdas": []}
-        for n in f.nodes():
+        for n in f.live_nodes():
             k = n["k"]
             if is_assignment(n):
                 ev["assign"].append(n)
